@@ -59,6 +59,7 @@ func scRebuild(p *scionPkt, mod func(s *slayers.SCION, u *slayers.UDP, pld *[]by
 func c05SCIONWorld(r *simcore.Run) any {
 	tp := r.Tape
 	useNTS := tp.Bool(1, 3, "nts")
+	scDrawFamily(r)
 	var w *scionWorld
 	var cl *client.SCIONClient
 	var filter *recFilter
